@@ -242,7 +242,7 @@ Obs observe(TasmanianSparseGrid const &g, ObsOpts const &o){
         }
         r.addi("points_idx", idx);
         std::vector<long long> nidx;
-        if (g.getNumNeeded() > 0){ const int *p = g.getNeededIndexes(); nidx.assign(p, p + (size_t) g.getNumNeeded() * (size_t) d); }
+        if (g.getNumNeeded() > 0 && g.isLocalPolynomial()){ const int *p = g.getNeededIndexes(); nidx.assign(p, p + (size_t) g.getNumNeeded() * (size_t) d); }
         r.addi("needed_idx", nidx);
     }
     {
